@@ -276,10 +276,20 @@ func ruleTAIL(c *Ctx) {
 		if !ok || len(as.Lhs) != 1 {
 			continue
 		}
-		l, r := w.Src(as.Lhs[0]), w.Src(as.Rhs[0])
-		if strings.HasPrefix(l, "v.stack[") && strings.Contains(l, "basePointer+") && strings.HasPrefix(r, "v.stack[") && strings.Contains(r, "sp-numArgs+") {
-			init, cond := w.Src(fs.Init), w.Src(fs.Cond)
-			if strings.HasSuffix(init, ":= 0") && strings.Contains(cond, "< numArgs") {
+		// names do not matter: the loop runs a counter below N, and copies
+		// recv.stack[recv.sp-N+counter] to recv.stack[…basePointer+counter]
+		l, r := w.SrcRecv(vi.Fn, as.Lhs[0]), w.SrcRecv(vi.Fn, as.Rhs[0])
+		cb, ok := ast.Unparen(fs.Cond).(*ast.BinaryExpr)
+		if !ok || cb.Op != token.LSS {
+			continue
+		}
+		cnt, ok1 := ast.Unparen(cb.X).(*ast.Ident)
+		lim, ok2 := ast.Unparen(cb.Y).(*ast.Ident)
+		if !ok1 || !ok2 {
+			continue
+		}
+		if strings.HasPrefix(l, "recv.stack[") && strings.Contains(l, "basePointer+"+cnt.Name+"]") && strings.HasPrefix(r, "recv.stack[") && strings.Contains(r, "sp-"+lim.Name+"+"+cnt.Name+"]") {
+			if strings.HasSuffix(strings.ReplaceAll(w.Src(fs.Init), " ", ""), ":=0") {
 				copyOK = true
 			}
 		}
